@@ -182,7 +182,7 @@ def exDrop : Case :=
     threads := [(true, [.up, .ins 0 0 0 5, .down]), (false, [.sub true])]
     sched := [] }
 
-def exDropMid : St := runSched 1 16 [0, 0, 0, 0, 0, 0, 1, 1, 1, 1, 1, 0, 0, 0, 0, 0] (init exDrop)
+def exDropMid : St := runSched 1 21 [0, 0, 0, 0, 0, 0, 0, 0, 0, 0, 0, 0, 0, 1, 1, 1, 1, 0, 0, 0, 0] (init exDrop)
 
 example : Reach exDrop exDropMid ∧ 0 ∈ exDropMid.subscribers ∧ 0 ∈ exDropMid.done 0 ∧
     view false ⟨0, 0, 0, 0⟩ (exDropMid.queues 0) = some 10005 ∧ ribV false exDropMid ⟨0, 0, 0, 0⟩ = none ∧
